@@ -143,6 +143,7 @@ def extra_objects():
     out.append(("registered-custom-object-x-prop", "2.1", {"type": "x-verif-obj", "spec_version": "2.1", "id": "x-verif-obj--" + U + "01", "created": TS, "modified": TS, "prop": "p",
                                                          "x_extra": "e", "labels": ["l"]}, False))
     out.append(("registered-custom-object-20", "2.0", {"type": "x-verif-obj", "id": "x-verif-obj--" + U + "01", "created": TS, "modified": TS, "prop": "p", "count": 2 ** 53 + 1}, False))
+    out.append(("digit-like-dictionary-keys", "2.1", dict(base, x_d={"\u00b2": 1, "\u0663": 2, "10": 3, "9": 4, "\uff17": 5, "07": 6}), True))
     out.append(("registered-custom-observable", "2.1", {"type": "x-verif-sco", "spec_version": "2.1", "id": "x-verif-sco--" + U + "01", "prop": "p", "num": 1e22}, False))
     out.append(("registered-custom-marking", "2.1", {"type": "marking-definition", "spec_version": "2.1", "id": "marking-definition--" + U + "01", "created": TS,
                                                    "definition_type": "x-verif-mark", "definition": {"level": "high"}}, False))
@@ -190,8 +191,9 @@ def extra_objects():
 
 
 TRANSPLANT_TS = ["2016-05-12T08:17:27Z", "2016-05-12T08:17:27.5Z", "2016-05-12T08:17:27.120Z", "2016-05-12T08:17:27.123456Z", "2016-05-12T08:17:27.000900Z", "2016-05-12T08:17:27.999999Z"]
-SOURCES = ["v21.created", "v20.created", "v21.first_seen", "v21.pe.time_date_stamp", "datetime", "string"]
-DESTS = ["v21.created", "v20.created", "v21.first_seen", "v21.object_modified", "v21.pe.time_date_stamp"]
+SOURCES = ["v21.created", "v20.created", "v21.first_seen", "v21.pe.time_date_stamp", "datetime", "string", "datetime-naive", "datetime-offset", "date"]
+DESTS = ["v21.created", "v20.created", "v21.first_seen", "v21.object_modified", "v21.pe.time_date_stamp", "v20.statement-marking.created", "v20.tlp-like-custom-marking.created",
+         "v21.marking.created"]
 
 
 def transplant_value(src, text):
@@ -204,6 +206,15 @@ def transplant_value(src, text):
     if src == "datetime":
         y, mo, d, h, mi, s, us = tsfmt.split(tsfmt.instant_of(text) // tsfmt.PS_PER_US)
         return dt.datetime(y, mo, d, h, mi, s, us, tzinfo=pytz.utc)
+    if src == "datetime-naive":
+        y, mo, d, h, mi, s, us = tsfmt.split(tsfmt.instant_of(text) // tsfmt.PS_PER_US)
+        return dt.datetime(y, mo, d, h, mi, s, us)
+    if src == "datetime-offset":
+        y, mo, d, h, mi, s, us = tsfmt.split(tsfmt.instant_of(text) // tsfmt.PS_PER_US)
+        return dt.datetime(y, mo, d, h, mi, s, us, tzinfo=pytz.utc).astimezone(dt.timezone(dt.timedelta(hours=5, minutes=30)))
+    if src == "date":
+        y, mo, d, h, mi, s, us = tsfmt.split(tsfmt.instant_of(text) // tsfmt.PS_PER_US)
+        return dt.date(y, mo, d)
     if src == "v21.created":
         return stix2.v21.Campaign(name="c", created=text, modified=text).created
     if src == "v20.created":
@@ -228,6 +239,13 @@ def transplant_object(dst, value):
                                          object_ref="campaign--" + U + "21", object_modified=value, contents={"de": {"name": "n"}})
     if dst == "v21.pe.time_date_stamp":
         return stix2.v21.File(name="f", extensions={"windows-pebinary-ext": {"pe_type": "exe", "time_date_stamp": value}})
+    if dst == "v20.statement-marking.created":
+        return stix2.v20.MarkingDefinition(id="marking-definition--" + U + "21", created=value, definition_type="statement", definition={"statement": "s"})
+    if dst == "v20.tlp-like-custom-marking.created":
+        return stix2.v20.MarkingDefinition(id="marking-definition--" + U + "21", created=value, definition_type="statement", definition=stix2.v20.StatementMarking(statement="s"),
+                                           external_references=[{"source_name": "s", "url": "u"}])
+    if dst == "v21.marking.created":
+        return stix2.v21.MarkingDefinition(id="marking-definition--" + U + "21", created=value, definition_type="statement", definition={"statement": "s"})
     raise ValueError(dst)
 
 
@@ -309,7 +327,7 @@ def roundtrip(obj, version, key, feat, part, case, options):
                 part.violation("C01/not-fixpoint/%s" % feat, "the round trip is not a fixed point after the second iteration", c, text2[:200], back2.serialize(**o)[:200])
         if o.get("pretty") and not o.get("sort_keys"):
             order = top_order(text)
-            spec_order = model.spec(version).classes[key]["order"] if key in model.spec(version).classes else []
+            spec_order = model.spec(version).classes[key]["order"] if key in model.spec(version).classes else list(type(obj)._properties) if key is None else []
             known = [k for k in order if k in spec_order]
             rest = [k for k in order if k not in spec_order]
             custom = [k for k in rest if not k.startswith("ext_")]
@@ -327,7 +345,7 @@ def roundtrip(obj, version, key, feat, part, case, options):
                 if j != ref_json:
                     part.violation("C01/options-disagree/%s" % feat, "two option sets denote different JSON values", dict(case, options=o), json.dumps(ref_json, sort_keys=True)[:200],
                                    json.dumps(j, sort_keys=True)[:200])
-            else:
+            elif key is not None:
                 diffs = harness.subset_diff(ref_json, j, version, key)
                 for path, kind, exp, obs in diffs[:2]:
                     part.violation("C01/options-disagree-beyond-defaults/%s/%s" % (kind, path.split(".")[-1].split("[")[0]),
@@ -374,6 +392,36 @@ def run_case(case, part):
                 part.violation("C01/extra-object-refused/%s" % label, "a hand-written object of the C01 menu is refused", case, "accepted", "%s: %s" % (type(e).__name__, str(e)[:150]))
                 return
             roundtrip(obj, version, model.spec(version).key_for_type(j["type"]), label, part, case, options)
+    elif kind == "programmatic":
+        # objects that exist only through constructors (not through parse): custom classes declared with extension_name, built WITHOUT passing 'extensions'
+        R = stix2.registry.STIX2_OBJ_MAPS["2.1"]
+        from stix2 import properties as P
+        if "x-verif-en1" not in R["objects"]:
+            @stix2.v21.CustomObject("x-verif-en1", [("prop", P.StringProperty()), ("x_extra", P.StringProperty())], extension_name="extension-definition--3f7f0c5f-5d54-4292-94ea-ec1e1952c0a1")
+            class EN1(object):
+                pass
+        if "x-verif-en2" not in R["observables"]:
+            @stix2.v21.CustomObservable("x-verif-en2", [("prop", P.StringProperty()), ("x_extra", P.StringProperty())], ["prop"], extension_name="extension-definition--3f7f0c5f-5d54-4292-94ea-ec1e1952c0a2")
+            class EN2(object):
+                pass
+        TS = "2016-05-12T08:17:27.000Z"
+        menu = {
+            "extension_name-object": lambda: R["objects"]["x-verif-en1"](id="x-verif-en1--" + U + "01", created=TS, modified=TS, prop="p"),
+            "extension_name-object+declared-x-property": lambda: R["objects"]["x-verif-en1"](id="x-verif-en1--" + U + "01", created=TS, modified=TS, prop="p", x_extra="e"),
+            "extension_name-object+custom-property": lambda: R["objects"]["x-verif-en1"](id="x-verif-en1--" + U + "01", created=TS, modified=TS, prop="p", x_other=1, allow_custom=True),
+            "extension_name-object+labels": lambda: R["objects"]["x-verif-en1"](id="x-verif-en1--" + U + "01", created=TS, modified=TS, prop="p", labels=["l"], x_extra="e"),
+            "extension_name-observable": lambda: R["observables"]["x-verif-en2"](prop="p"),
+            "extension_name-observable+declared-x-property": lambda: R["observables"]["x-verif-en2"](prop="p", x_extra="e", defanged=True),
+            "toplevel-extension-as-instance": lambda: stix2.v21.Identity(id="identity--" + U + "21", created=TS, modified=TS, name="n", ext_rank=3,
+                                                                         extensions={"extension-definition--" + U + "f1": R["extensions"]["extension-definition--" + U + "f1"]()}),
+            "registered-extension-as-instance": lambda: stix2.v21.File(name="f", extensions={"x-verif-ext": R["extensions"]["x-verif-ext"](level=1)}),
+        }
+        try:
+            obj = menu[case["label"]]()
+        except harness.lib_errors() as e:
+            part.violation("C01/extra-object-refused/%s" % case["label"], "a programmatically built object of the C01 menu is refused", case, "accepted", "%s: %s" % (type(e).__name__, str(e)[:150]))
+            return
+        roundtrip(obj, "2.1", None, "programmatic/" + case["label"], part, case, options)
     elif kind == "transplant":
         try:
             val = transplant_value(case["src"], case["ts"])
@@ -403,6 +451,9 @@ def run(run):
         for dst in DESTS:
             for ts in TRANSPLANT_TS:
                 cases.append({"kind": "transplant", "src": src, "dst": dst, "ts": ts, "all_options": False})
+    for lab in ("extension_name-object", "extension_name-object+declared-x-property", "extension_name-object+custom-property", "extension_name-object+labels", "extension_name-observable",
+                "extension_name-observable+declared-x-property", "toplevel-extension-as-instance", "registered-extension-as-instance"):
+        cases.append({"kind": "programmatic", "label": lab, "all_options": True})
     run.mode = "DEV"
     run.rule = ("every generated valid instance of both spec versions (deviation bound %d) + custom-content / registered-custom / bundle / container objects + %d timestamp "
                 "transplants x serialization option sets (all 26 for minimal, maximal, hand-written and every 4th generated instance%s; 3 representative sets otherwise); "
